@@ -131,12 +131,12 @@ func (p *projSpec) applySpecEdit(op *opSpec) bool {
 	case "dir-add":
 		p.Files[filepath.Join(op.Path, fmt.Sprintf("added%d.txt", op.N))] = fmt.Sprintf("added %d\n", op.N)
 	case "dir-remove":
-		names := p.filesUnder(op.Path)
+		names := p.plainUnder(op.Path)
 		if len(names) > 1 {
 			delete(p.Files, names[op.N%len(names)])
 		}
 	case "dir-rename":
-		names := p.filesUnder(op.Path)
+		names := p.plainUnder(op.Path)
 		if len(names) > 0 {
 			old := names[op.N%len(names)]
 			content := p.Files[old]
@@ -145,7 +145,7 @@ func (p *projSpec) applySpecEdit(op *opSpec) bool {
 		}
 	case "dir-move":
 		// move a file into another sub-directory of the source directory, keeping its base name
-		names := p.filesUnder(op.Path)
+		names := p.plainUnder(op.Path)
 		if len(names) > 0 {
 			old := names[op.N%len(names)]
 			content := p.Files[old]
@@ -158,7 +158,7 @@ func (p *projSpec) applySpecEdit(op *opSpec) bool {
 	case "dir-lift":
 		// move the last file of a sub-directory up into the parent directory, keeping its
 		// base name (the pre-order listing of names may stay the same; the tree does not)
-		names := p.filesUnder(op.Path)
+		names := p.plainUnder(op.Path)
 		last := map[string]string{}
 		for _, n := range names {
 			if d := filepath.Dir(n); d != op.Path && n > last[d] {
@@ -167,7 +167,7 @@ func (p *projSpec) applySpecEdit(op *opSpec) bool {
 		}
 		var cands []string
 		for d, n := range last {
-			if len(p.filesUnder(d)) > 1 {
+			if len(p.plainUnder(d)) > 1 {
 				cands = append(cands, n)
 			}
 		}
@@ -182,7 +182,7 @@ func (p *projSpec) applySpecEdit(op *opSpec) bool {
 		}
 	case "dir-sink":
 		// the reverse: a file of the source directory moves into one of its sub-directories
-		names := p.filesUnder(op.Path)
+		names := p.plainUnder(op.Path)
 		var direct, subs []string
 		seen := map[string]bool{}
 		for _, n := range names {
@@ -203,7 +203,7 @@ func (p *projSpec) applySpecEdit(op *opSpec) bool {
 		}
 	case "subdir-rename":
 		// rename a sub-directory of the source directory (contents and base names unchanged)
-		names := p.filesUnder(op.Path)
+		names := p.plainUnder(op.Path)
 		subs := map[string]bool{}
 		for _, n := range names {
 			rel := strings.TrimPrefix(n, op.Path+"/")
@@ -228,7 +228,7 @@ func (p *projSpec) applySpecEdit(op *opSpec) bool {
 		}
 	case "dir-swap":
 		// swap the contents of two files of a directory: same multiset of contents, other names
-		names := p.filesUnder(op.Path)
+		names := p.plainUnder(op.Path)
 		if len(names) >= 2 {
 			a, b := names[0], names[1]
 			p.Files[a], p.Files[b] = p.Files[b], p.Files[a]
@@ -318,6 +318,17 @@ func (p *projSpec) reaches(from, to *targetSpec) bool {
 	return false
 }
 
+// plainUnder: the regular files under dir (symbolic links stay where they are).
+func (p *projSpec) plainUnder(dir string) []string {
+	var out []string
+	for _, n := range p.filesUnder(dir) {
+		if !strings.HasPrefix(p.Files[n], linkMark) {
+			out = append(out, n)
+		}
+	}
+	return out
+}
+
 func (p *projSpec) filesUnder(dir string) []string {
 	var names []string
 	for f := range p.Files {
@@ -343,6 +354,9 @@ func (p *projSpec) applyDiskEdit(root string, op *opSpec) {
 			return
 		}
 		if !st.IsDir() {
+			if lst, err := os.Lstat(full); err == nil && lst.Mode()&os.ModeSymlink != 0 {
+				return
+			}
 			b, _ := os.ReadFile(full)
 			os.Remove(full)
 			os.WriteFile(full, b, 0644)
@@ -350,15 +364,19 @@ func (p *projSpec) applyDiskEdit(root string, op *opSpec) {
 		}
 		// empty the directory and re-create its files in the opposite order
 		names := p.filesUnder(op.Path)
-		contents := map[string][]byte{}
+		contents := map[string]string{}
 		for _, n := range names {
-			contents[n], _ = os.ReadFile(filepath.Join(root, n))
+			if strings.HasPrefix(p.Files[n], linkMark) {
+				contents[n] = p.Files[n]
+				continue
+			}
+			b, _ := os.ReadFile(filepath.Join(root, n))
+			contents[n] = string(b)
 		}
 		os.RemoveAll(full)
 		os.MkdirAll(full, 0755)
 		for i := len(names) - 1; i >= 0; i-- {
-			os.MkdirAll(filepath.Dir(filepath.Join(root, names[i])), 0755)
-			os.WriteFile(filepath.Join(root, names[i]), contents[names[i]], 0644)
+			writeEntry(root, names[i], contents[names[i]])
 		}
 	case "break-source":
 		// replace a source file by a symbolic link to itself: reading it fails with ELOOP
@@ -368,9 +386,8 @@ func (p *projSpec) applyDiskEdit(root string, op *opSpec) {
 			os.Symlink(filepath.Base(full), full)
 		}
 	case "restore-source":
-		full := filepath.Join(root, op.Path)
-		os.Remove(full)
-		os.WriteFile(full, []byte(p.Files[op.Path]), 0644)
+		os.Remove(filepath.Join(root, op.Path))
+		writeEntry(root, op.Path, p.Files[op.Path])
 	case "delete-generated":
 		if t := p.target(op.Label); t != nil {
 			for i, g := range t.Generates {
